@@ -1976,7 +1976,7 @@ fn main() {
             let only = only.to_string_lossy().to_string();
             scenarios.retain(|(n, _)| *n == only);
         } else {
-            let n = args.cases(12, 360);
+            let n = args.cases(12, 240);
             for i in 0..n {
                 scenarios.push((format!("random{i}"), gen_scenario(args.seed, i, args.budget > 1 || i % 3 == 2)));
             }
